@@ -454,6 +454,16 @@ func genMulti(r *hxlib.Rng, p collPair) multiCase {
 	return mc
 }
 
+// multiCorpus: cases kept from earlier runs (one line each, the format of
+// multiCase.line without the "c12 multi" prefix).  The first is the witness of
+// Mpc.C12_multi_rewiden_witness: uint100(2^65) ^ x0 registers the name at
+// width 100, int101(2^65) + x1 is then re-built from its own mpa size.
+var multiCorpus = []string{
+	"inline plain:u:100:36893488147419103232:0:pos:pos:xor plain:s:101:36893488147419103232:0:pos:pos:add",
+	"vars plain:s:101:36893488147419103232:0:pos:pos:add plain:u:100:36893488147419103232:0:pos:pos:xor",
+	"inline plain:u:64:9223372036854775808:0:pos:pos:add plain:s:65:9223372036854775808:0:pos:pos:xor",
+}
+
 func modeMulti(cf *hxlib.CommonFlags, o *hxlib.Out) {
 	if strings.TrimSpace(cf.Extra) != "" {
 		// exact replay of one case
@@ -467,6 +477,20 @@ func modeMulti(cf *hxlib.CommonFlags, o *hxlib.Out) {
 			fmt.Fprintf(os.Stderr, "FAIL %v\n", fl)
 		}
 		return
+	}
+	if cf.Only < 0 {
+		// minimised past failures run first, on their own generator so that
+		// the random cases below are the same with and without them
+		cr := hxlib.NewRng(cf.Seed ^ 0x636f72707573)
+		for _, ln := range multiCorpus {
+			mc, err := parseMultiLine(ln)
+			if err != nil {
+				fmt.Fprintln(os.Stderr, err)
+				os.Exit(2)
+			}
+			mc.class = "corpus"
+			runMulti(o, cr.Fork(), mc, false)
+		}
 	}
 	r := hxlib.NewRng(cf.Seed ^ 0x6d756c7469)
 	pairs := collisionPairs(r.Fork(), cf.N)
